@@ -65,23 +65,24 @@ TEXT_REWRITERS = ('split', 'join', 'lower', 'upper', 'replace', 'sub', 'translat
                   'encode', 'format', 'expandtabs')
 
 
-def _text_chain(ctx, m):
+def _text_chain(ctx, m, rule='C11.D8'):
     """(D8) the filter text reaches the grammar unchanged: at every hop filter_function -> _filter_function ->
     parse_filter -> hs_filter.parseString the argument is the hop's own parameter.  A rewrite on the way (case,
     whitespace normalisation, substitution) also rewrites string/URI literals inside the filter."""
-    hops = [('filter_function', '_filter_function'), ('_filter_function', 'parse_filter'),
-            ('parse_filter', 'hs_filter.parseString')]
+    hops = [('grid', 'Grid.filter', 'filter_function', 1), (MOD, 'filter_function', '_filter_function', 0),
+            (MOD, '_filter_function', 'parse_filter', 0), (MOD, 'parse_filter', 'hs_filter.parseString', 0)]
     n = 0
-    for fname, callee in hops:
+    for hmod, fname, callee, pidx in hops:
         try:
-            fn = m.func(MOD, fname)
+            fn = m.func(hmod, fname)
         except AnalysisError as e:
-            ctx.error('C11.D8', str(e))
+            ctx.error(rule, str(e))
             continue
-        param = fn.args.args[0].arg
+        FF_ = 'hszinc/%s.py' % hmod
+        param = fn.args.args[pidx].arg
         calls = [c for c in ast.walk(fn) if isinstance(c, ast.Call) and norm(c.func) in (callee, callee.replace('parseString', 'parse_string'))]
         if len(calls) != 1 or not calls[0].args:
-            ctx.error('C11.D8', '%s: %d calls of %s; cannot decide' % (fname, len(calls), callee))
+            ctx.error(rule, '%s: %d calls of %s; cannot decide' % (fname, len(calls), callee))
             continue
         c = calls[0]
         arg = c.args[0]
@@ -98,24 +99,24 @@ def _text_chain(ctx, m):
         rebinds = [st for st in ast.walk(fn) if isinstance(st, (ast.Assign, ast.AugAssign))
                    and any(norm(t) == param for t in (st.targets if isinstance(st, ast.Assign) else [st.target]))]
         n += 1
-        where = '%s:%d' % (FF, c.lineno)
+        where = '%s:%d' % (FF_, c.lineno)
         if isinstance(arg, ast.Name) and arg.id == param and not rebinds:
-            ctx.ob('C11.D8', '%s hands its text unchanged to %s' % (fname, callee), True, where)
+            ctx.ob(rule, '%s hands its text unchanged to %s' % (fname, callee), True, where)
             continue
         expr = rebinds[0].value if rebinds and isinstance(arg, ast.Name) and arg.id == param else arg
         used = [x.func.attr for x in ast.walk(expr) if isinstance(x, ast.Call) and isinstance(x.func, ast.Attribute)]
         if any(u in TEXT_REWRITERS for u in used) and any(isinstance(x, ast.Name) and x.id == param for x in ast.walk(expr)):
-            ctx.violation('C11.D8', '%s::%s' % (FF, fname), norm(expr)[:120],
+            ctx.violation(rule, '%s::%s' % (FF_, fname), norm(expr)[:120],
                           'grid.filter(\'dis == "AHU  1"\') (two blanks inside the literal): the text is rewritten with `%s` '
                           'before it is parsed, the literal inside it changes too, and the rows whose dis is "AHU 1" are '
                           'selected instead' % norm(expr)[:60],
                           '%s rewrites the filter text (%s) before handing it to %s: literals inside the filter are '
                           'rewritten as well' % (fname, ', '.join(u for u in used if u in TEXT_REWRITERS), callee),
-                          file=FF, line=c.lineno, engine='E7')
+                          file=FF_, line=c.lineno, engine='E7')
         else:
-            ctx.error('C11.D8', '%s passes `%s` to %s: not the parameter itself and not a recognised rewrite; cannot decide'
+            ctx.error(rule, '%s passes `%s` to %s: not the parameter itself and not a recognised rewrite; cannot decide'
                       % (fname, norm(expr)[:80], callee))
-    ctx.floor('filter text hops', n, 3)
+    ctx.floor('filter text hops', n, 4)
 
 
 def _unwrap(n):
@@ -613,7 +614,50 @@ def _operators(ctx, m, g):
                               'operands/operator of a binary node are emitted in another order', 'binary branch order',
                               file=F, line=node.lineno, engine='E9')
             else:
-                ctx.error('C11.D3', 'binary branch fragments not recognised: %s' % (frs,))
+                # general shape: constants / `<c1> + node.op + <c2>` around the two recursive operands
+                import re as _re
+                tpl = ''
+                okshape = True
+                for kind_, txt in frs:
+                    if kind_ == 'const':
+                        tpl += txt
+                    elif kind_ == 'rec':
+                        tpl += 'L' if txt.endswith('.left') else ('R' if txt.endswith('.right') else '?')
+                    else:
+                        mo = _re.match(r"^'([^']*)' \+ %s\.op \+ '([^']*)'$" % _re.escape(node_p), txt)
+                        if mo:
+                            tpl += mo.group(1) + 'O' + mo.group(2)
+                        else:
+                            okshape = False
+                compact = tpl.replace(' ', '')
+                if not okshape or sorted(c for c in compact if c in 'LRO?') != ['L', 'O', 'R']:
+                    ctx.error('C11.D3', 'binary branch fragments not recognised: %s' % (frs,))
+                elif compact.index('L') > compact.index('R'):
+                    ctx.violation('C11.D3', '%s::_generate_filter_in_python' % F, tpl,
+                                  'operands of a binary node are emitted in another order', 'binary branch order', file=F,
+                                  line=node.lineno, engine='E9')
+                else:
+                    whole = compact.startswith('(') and compact.endswith(')') and compact.count('(') == compact.count(')')
+                    depth = 0
+                    if whole:
+                        for i_, ch in enumerate(compact):
+                            depth += ch == '('
+                            depth -= ch == ')'
+                            if depth == 0 and i_ < len(compact) - 1:
+                                whole = False
+                                break
+                    each = '(L)' in compact and '(R)' in compact
+                    if whole or each:
+                        ctx.ob('C11.D3', 'a binary node compiles to `%s`: %s, source order' % (
+                            tpl, 'the node is parenthesised' if whole else 'each operand is parenthesised'), True, where)
+                    else:
+                        bare = 'left' if '(L)' not in compact else 'right'
+                        ctx.violation('C11.D3', '%s::_generate_filter_in_python' % F, tpl,
+                                      '`(a or b) and c` is generated as `%s`: the %s operand is spliced bare into `... and ...`, '
+                                      'Python binds `and` tighter than `or`, so it evaluates as a or (b and c) -- rows with a but '
+                                      'not c are selected' % (tpl.replace('L', 'a or b').replace('O', 'and').replace('R', 'c'), bare),
+                                      'a binary node is emitted as `%s`: neither the node nor its %s operand is parenthesised'
+                                      % (tpl, bare), file=F, line=node.lineno, engine='E9')
         elif t in ("%s.op == 'has'" % node_p, "%s.op == 'not'" % node_p):
             is_has = 'has' in t
             consts = [f[1] for f in frs if f[0] == 'const']
@@ -698,7 +742,51 @@ def _sentinel(ctx, m):
 
 # ------------------------------------------------------------------ D5
 
+LOSSY_IN_REPR = ('round', 'int', 'float', 'abs', 'lower', 'upper', 'strip', 'format', 'trunc', 'floor', 'ceil')
+
+
+def _repr_exact(ctx, m):
+    """literals are spliced into the generated code as repr(value): the repr of every literal class must read its
+    fields as they are (%r / repr() of self.<field>).  Rounding or formatting a field in __repr__ compiles the filter
+    against another value than the one written."""
+    n = 0
+    for cname in ('Qty', 'Coordinate', 'Ref', 'Uri', 'Bin', 'XStr'):
+        try:
+            meths = m.methods('datatypes', cname)
+        except AnalysisError:
+            continue
+        fn = meths.get('__repr__')
+        if fn is None:
+            continue
+        n += 1
+        FD_ = 'hszinc/datatypes.py'
+        bad = None
+        for node in ast.walk(fn):
+            if isinstance(node, ast.Call):
+                fname = node.func.attr if isinstance(node.func, ast.Attribute) else norm(node.func)
+                touches = any(isinstance(x, ast.Attribute) and isinstance(x.value, ast.Name) and x.value.id == 'self'
+                              and x.attr not in ('__class__',) for a_ in list(node.args) + [node.func] for x in ast.walk(a_))
+                if fname in LOSSY_IN_REPR and touches:
+                    bad = node
+            if isinstance(node, ast.Constant) and isinstance(node.value, str):
+                import re as _re
+                if _re.search(r'%[0-9.]*[fegdi]', node.value) or _re.search(r'\{[^}]*:[^}]*[fegd]\}', node.value):
+                    bad = node
+        if bad is not None:
+            ctx.violation('C11.D5', '%s::%s.__repr__' % (FD_, cname), norm(bad)[:120],
+                          'filter `geoCoord == C(37.5458266,-77.4491888)` on a row holding exactly that coordinate: the literal is '
+                          'compiled as repr(value), and %s.__repr__ passes a field through `%s`, so the generated code compares '
+                          'against another value (37.545827, -77.449189) and the row is not selected' % (cname, norm(bad)[:40]),
+                          '%s.__repr__ does not reproduce its fields exactly (%s)' % (cname, norm(bad)[:40]), file=FD_,
+                          line=bad.lineno, engine='E10')
+        else:
+            ctx.ob('C11.D5', '%s.__repr__ shows its fields as they are (no rounding / numeric formatting)' % cname, True,
+                   '%s:%d' % (FD_, fn.lineno))
+    ctx.floor('literal classes with __repr__', n, 5)
+
+
 def _literals(ctx, m, g):
+    _repr_exact(ctx, m)
     try:
         hs_val = g.get('hs_val')
     except AnalysisError as e:
